@@ -9,6 +9,17 @@ COMMON_ASSUME = [
 ]
 
 PROPS = {
+  'C03': {
+    'rule': 'cases = (T in 1..8 probe threads running one generated phase list: yield x5 options, create+join child-first/parent-first with default/custom stacks, contended mutex, barrier, condvar turnstile, join counter, uncond mailbox; six generated 64-bit patterns in rbx,rbp,r12-r15 and a stack array of 64B..32KiB around every switching call; thread entry through an assembly stub recording rsp mod 16; W in 1..8 (16 thorough); schedule); '
+            'non-trivial = at least one probed call really switched (another thread ran on the worker during the call, or the thread came back on another worker); distinct = hash of (phases, schedule, seed)',
+    'assumptions': COMMON_ASSUME + ['x86-64 only; the red-zone skip is observable only indirectly (optimised builds)', 'library built with gcc -O0, gcc -O2 and clang -O2'],
+    'stages': [
+      {'kind': 'replays', 'name': 'replay', 'variant': 'v0'},
+      {'kind': 'pbt', 'name': 'probes-gcc-O0', 'variant': 'v0', 'prop': 3, 'cases': (700, 10000), 'prog_max': 80, 'sched_max': 384},
+      {'kind': 'pbt', 'name': 'probes-gcc-O2', 'variant': 'v2', 'prop': 3, 'cases': (500, 10000), 'prog_max': 80, 'sched_max': 384},
+      {'kind': 'pbt', 'name': 'probes-clang-O2', 'variant': 'c2', 'prop': 3, 'cases': (400, 10000), 'prog_max': 80, 'sched_max': 384},
+    ],
+  },
   'C12': {
     'rule': 'cases = (history of 4..60 (quick) / 400 (thorough) manager operations over 1..12 slots: create (body quick/yielder/waiter/spawner; default or custom stack size from the allocator size classes and off-class sizes; parent-first; detach attribute), release, join now/late, tryjoin, timedjoin, detach before/after finish, yields, create+join cycles; every body keeps a canary buffer on its own stack; W in 1..8; schedule); '
             'non-trivial = a stack or record was released by a different worker than allocated it, or a late join happened after records had been recycled; distinct = hash of (history, schedule, seed)',
